@@ -350,6 +350,97 @@ def in_use(pot, spec, u):
     return out
 
 
+def synthetic_collisions(model, manager):
+    """Relaxation-time collision operator C = -Gamma * identity for every pair of out-of-
+    equilibrium particles, written in the format of the shipped collision files (the shipped
+    ones are git-lfs pointers here).  Collision integrals are in units of T: the same files
+    serve every unit system."""
+    import tempfile
+    import h5py
+    d = tempfile.mkdtemp(prefix="c07_coll_")
+    n = manager.config.configGrid.momentumGridSize
+    names = [p.name for p in model.outOfEquilibriumParticles]
+    for a in names:
+        for b in names:
+            with h5py.File(os.path.join(d, "collisions_%s_%s.hdf5" % (a, b)), "w") as f:
+                md = f.create_group("metadata")
+                md.attrs["Basis Size"] = n
+                md.attrs["Basis Type"] = "Cardinal"
+                C = np.zeros((n - 1,) * 4)
+                if a == b:
+                    for i in range(n - 1):
+                        for j in range(n - 1):
+                            C[i, j, i, j] = -3.0
+                f.create_dataset("%s, %s" % (a, b), data=C)
+    return pathlib.Path(d)
+
+
+def patch_minimiser(variant, spec, st):
+    """Counterfactuals for the tolerance site `minimize(tol=tol)` of EffectivePotential.
+    findLocalMinimum: INSIDE that method (recognised by the call, not by the keywords it
+    passes, so that `method="BFGS"` or `from scipy.optimize import minimize` do not matter)
+    scipy's gradient-based minimiser gets a finite-difference step ("scaledstep") or a
+    gradient tolerance ("scaledgtol") scaled with the units.  Returns the undo function."""
+    import scipy.optimize
+    import WallGo.effectivePotential as EP
+    state = {"inside": 0}
+    orig_min = scipy.optimize.minimize
+    orig_flm = EP.EffectivePotential.findLocalMinimum
+    mod_min = EP.__dict__.get("minimize")
+
+    def minimize(f, x0, *a, **kw):
+        m = kw.get("method") or (a[1] if len(a) > 1 else None)
+        if state["inside"] and st.unit is not None and "bounds" not in kw and (
+                m is None or str(m).upper() in ("BFGS", "CG", "L-BFGS-B")):
+            o = dict(kw.pop("options", None) or {})
+            if variant == "scaledstep":
+                o.setdefault("eps", 1.4901161193847656e-08 * spec["phiscale"] * st.unit)
+            else:
+                tol = kw.pop("tol", None)
+                o.setdefault("gtol", (tol if tol is not None else 1e-5) * st.unit ** 3)
+            kw["options"] = o
+        return orig_min(f, x0, *a, **kw)
+
+    def findLocalMinimum(self, *a, **kw):
+        state["inside"] += 1
+        try:
+            return orig_flm(self, *a, **kw)
+        finally:
+            state["inside"] -= 1
+    scipy.optimize.minimize = minimize
+    if mod_min is not None:
+        EP.minimize = minimize
+    EP.EffectivePotential.findLocalMinimum = findLocalMinimum
+
+    def restore():
+        scipy.optimize.minimize = orig_min
+        if mod_min is not None:
+            EP.minimize = mod_min
+        EP.EffectivePotential.findLocalMinimum = orig_flm
+    return restore
+
+
+def run_jobs(ctx, jobs, limit):
+    """every job in a FRESH process (nothing a job patches or caches can leak into another),
+    at most 6 at a time, each with a wall-time limit; a job over the limit is reported as
+    inconclusive (environment), never as a violation"""
+    out = {}
+    with multiprocessing.Pool(min(len(jobs), 6), maxtasksperchild=1) as pool:
+        pend = [(j, pool.apply_async(solve_case, (j,))) for j in jobs]
+        # `limit` seconds per job and per round of 6 (the jobs queue behind one another)
+        t_end = time.time() + limit * math.ceil(len(jobs) / 6.0)
+        for j, h in pend:
+            try:
+                out[j] = h.get(timeout=max(1.0, t_end - time.time()))
+            except multiprocessing.TimeoutError:
+                out[j] = dict(model=j[0], unit=j[1], tols=j[2], stages=list(j[3]),
+                              history=list(j[4]), mode=j[5], hist_stages=list(j[6]),
+                              variant=j[7], inconclusive="no result within the time limit",
+                              seconds=-1)
+        pool.terminate()
+    return out
+
+
 def solve_case(job):
     """job = J(...). Returns a dict of outputs in the units of the run (dimensionful ones are
     rescaled by the caller).
@@ -366,22 +457,14 @@ def solve_case(job):
     out = dict(model=name, unit=unit, tols=tolname, history=list(history), mode=mode,
                hist_stages=list(hist_stages), variant=variant, stages=list(stages))
     st = None
+    restore = None
     try:
         import WallGo
         st = Setup(spec, tols)
         if variant in ("int", "intall", "scalar"):
             st.typed = variant
-        if variant == "scaledstep":
-            import scipy.optimize
-            orig = scipy.optimize.minimize
-
-            def scaled(f, x0, *a, **kw):
-                if "method" not in kw and "bounds" not in kw and st.unit is not None:
-                    o = dict(kw.pop("options", None) or {})
-                    o.setdefault("eps", 1.4901161193847656e-08 * spec["phiscale"] * st.unit)
-                    kw["options"] = o
-                return orig(f, x0, *a, **kw)
-            scipy.optimize.minimize = scaled
+        if variant in ("scaledstep", "scaledgtol"):
+            restore = patch_minimiser(variant, spec, st)
         offeq = "offeq" in stages
         settings = WallGo.WallSolverSettings(
             bIncludeOffEquilibrium=offeq, meanFreePathScale=spec["meanFreePathScale"],
@@ -400,6 +483,10 @@ def solve_case(job):
                            "width" + tag: float(res.wallWidths[0]),
                            "Tplus" + tag: float(res.temperaturePlus),
                            "Tminus" + tag: float(res.temperatureMinus)})
+            if offeq:
+                target["delta00" + tag] = float(np.max(np.abs(
+                    res.Deltas.Delta00.coefficients)))
+                te = getattr(res, "violationOfEMConservation", None)
             if len(res.wallWidths) > 1:       # offsets[0] is 0 by construction
                 target.update({"width_b" + tag: float(res.wallWidths[1]),
                                "offset_b" + tag: float(res.wallOffsets[1])})
@@ -413,9 +500,7 @@ def solve_case(job):
                 wall(mh, scratch, "")
         manager = st.setup(unit, reuse_manager=(mode == "manager"))
         if offeq:
-            # collision integrals are in units of T: the same shipped files in every units
-            manager.setPathToCollisionData(pathlib.Path(
-                vlib.REPO, "Models", "Yukawa", "CollisionOutput_N11"))
+            manager.setPathToCollisionData(synthetic_collisions(st.model, manager))
         ds = st.pot.derivativeSettings
         out["dTscale"] = float(ds.temperatureVariationScale)
         out["phiscale"] = float(np.asarray(ds.fieldValueVariationScale).reshape(-1)[0])
@@ -474,6 +559,9 @@ def solve_case(job):
                 getattr(st, "input_mutations", [])
         except Exception:
             pass
+    finally:
+        if restore is not None:
+            restore()
     out["seconds"] = round(time.time() - t0, 1)
     return out
 
@@ -499,6 +587,7 @@ DIMFUL = {"width2": -1, "Tplus2": 1, "Tminus2": 1, "width": -1, "Tplus": 1, "Tmi
           "TMaxHighT": 1, "TMaxLowT": 1,
           # the finite-difference / tracer scales: as configured and as really in use
           "dTscale": 1, "phiscale": 1, "scaleInUsePhi": 1, "scaleInUseT": 1,
+          "delta00": 2,           # out-of-equilibrium Delta00 (max over the grid)
           # the potential's own derivative routines at a fixed physical point
           "probe_dVdphi": 3, "probe_d2Vdphi2": 2, "probe_dVdT": 3, "probe_d2VdphidT": 2}
 ABSOLUTE = ("vw", "vw2", "offset_b", "offset_b2", "vwDeton")
@@ -514,7 +603,10 @@ PROBE_TOL = 1e-4
 def tolerance_for(q, tols):
     """tolerances derived from the configuration of the run (relative unless in ABSOLUTE)"""
     eT, pT, hR = tols["errTol"], tols["phaseTracerTol"], tols["hydroRtol"]
-    eos = max(1e3 * pT, 100 * hR)
+    # EOS-stage outputs: the tables are traced to phaseTracerTol and every hydrodynamic root /
+    # shock integration is solved to the relative tolerance hR: one decade of head room each
+    # (measured on the unchanged tree at phaseTracerTol 1e-8: <= 1e-8)
+    eos = max(10 * pT, 10 * hR)
     if q.endswith("2") and q[:-1] in ("vw", "width", "Tplus", "Tminus", "width_b", "offset_b"):
         q = q[:-1]               # second call on the same manager: same tolerances
     if q in ("vw", "vwDeton", "vwLTEres"):
@@ -525,6 +617,8 @@ def tolerance_for(q, tols):
         return max(10 * eT, 5e-3)
     if q in ("vwLTE", "vJ", "vMin"):
         return eos
+    if q == "delta00":
+        return 5e-2              # max over a 20-point grid of a quantity known to ~ errTol
     if q in INPUTS:
         return 1e-12             # inputs: must arrive unchanged
     if q.startswith("probe_"):
@@ -645,18 +739,28 @@ def compare_runs(ctx, ref, run, tols, tolname, counterfactual=None):
     ctx.count("probe_findLocalMinimum",
               bucket="dev<1e-4" if probe < PROBE_TOL else "dev>=1e-4")
     cand = [d for d in devs if d[0] in EOS_Q]
-    attributed = []
-    if cand and probe >= PROBE_TOL and ranges_differ and counterfactual is not None \
-            and not run.get("variant"):
-        cf = counterfactual(run)
-        if "raised" not in cf:
-            still = {d[0] for d in deviations(ref, cf, tols, skip)}
-            attributed = [d for d in cand if d[0] not in still]
-            ctx.log("  counterfactual (finite-difference step of findLocalMinimum scaled with "
-                    "the field scale) for %s: %s" % (
-                        describe(run), "removes " + ",".join(d[0] for d in attributed)
-                        if attributed else "removes nothing") +
-                    ("; remains: " + ",".join(sorted(still)) if still else ""))
+    attributed, key_of = [], None
+    # two recorded mechanisms of the site `minimize(tol=tol)`, each with its counterfactual:
+    #   large units: absolute finite-difference STEP   (needs: traced ranges differ)
+    #   small units: absolute GRADIENT tolerance gtol  (tol or 1e-5 is met at the start point)
+    mech = [("site:findLocalMinimum-absolute-step", "scaledstep", lam > 1 and ranges_differ),
+            ("site:findLocalMinimum-absolute-gtol", "scaledgtol", lam < 1)]
+    for key, variant, pre in mech:
+        if not (cand and pre and probe >= PROBE_TOL and counterfactual is not None
+                and not run.get("variant")):
+            continue
+        cf = counterfactual(run, variant)
+        if "raised" in cf or "inconclusive" in cf:
+            continue
+        still = {d[0] for d in deviations(ref, cf, tols, skip)}
+        attributed = [d for d in cand if d[0] not in still]
+        ctx.log("  counterfactual %s for %s: %s%s" % (
+            variant, describe(run), "removes " + ",".join(d[0] for d in attributed)
+            if attributed else "removes nothing",
+            "; remains: " + ",".join(sorted(still)) if still else ""))
+        if attributed:
+            key_of = (key, variant)
+            break
     for q, a, b, d, dev, tol in devs:
         bad.append(q)
         if (q, a, b, d, dev, tol) in attributed:
@@ -670,15 +774,16 @@ def compare_runs(ctx, ref, run, tols, tolname, counterfactual=None):
         ctx.fail_input(
             "%s: the EOS at Tn computed without tracing/interpolation (findLocalMinimum + "
             "finite differences; what initTemperatureRange feeds the template model) deviates "
-            "by %.2g between %s; the traced ranges differ; downstream %s -- all of which "
-            "vanish when scipy's absolute finite-difference step in findLocalMinimum is "
-            "scaled with the field variation scale" % (
+            "by %.2g between %s; downstream %s -- all of which vanish when scipy's absolute %s "
+            "in findLocalMinimum is scaled with the units (counterfactual %s)" % (
                 label, probe, pair,
                 "; ".join("%s %.7g vs %.7g (dev %.2g > %.2g)" % (q, a, b, dev, tol)
-                          for q, a, b, d, dev, tol in attributed)),
+                          for q, a, b, d, dev, tol in attributed),
+                "finite-difference step" if key_of[1] == "scaledstep" else
+                "gradient tolerance", key_of[1]),
             replay_dict(ref, run, quantity="findLocalMinimum", probe=probe,
-                        downstream=[x[0] for x in attributed]),
-            key="site:findLocalMinimum-absolute-step")
+                        downstream=[x[0] for x in attributed], counterfactual=key_of[1]),
+            key=key_of[0])
     return bad
 
 
@@ -1175,12 +1280,18 @@ def run(ctx):
     # temperatureVariationScale) are replayed first in every tier
     if ctx.quick:
         cross("yukawa4", "default", [100.0], H)
+        # the configuration exactly as shipped (nothing overridden): recorded input of
+        # site:findLocalMinimum-absolute-gtol (x0.01) and the only runs that see config.py's
+        # default VALUES
+        cross("yukawa", "shipped", [1e-2, 10.0], ("lte",), "config")
         typed("yukawa4", 100.0, ["int", "scalar", "intall"])
         cross("yukawa", "default", [1e-2, 10.0] + ([0.1, 100.0] if search else []), W)
         cross("quarticlog", "default", [1e-2] + ([100.0] if search else []), L)
         cross("quarticwide", "default", [100.0] + ([1e-2] if search else []),
               L if search else H)
         cross("xsm", "default", [1e-2], L)
+        # out of equilibrium (Boltzmann solver, momentum grid, deltaToTmunu)
+        cross("quarticwide", "default", [100.0], ("wall", "offeq"), "off-equil.")
         # histories: solve in one unit system, re-set-up the SAME manager in another, solve
         hist("yukawa", W, (1.0,), 1e-2, "manager", hs=L, stages=L)
         hist("yukawa", W, (1e-2,), 1.0, "model")
@@ -1193,18 +1304,13 @@ def run(ctx):
             for t in ("default", "tight"):
                 cross(m, t, [1e-2, 1e-1, 10.0, 100.0], W if m == "yukawa" else L)
         cross("xsm", "default", [1e-2, 1e-1], W)       # x10, x100: see the known finding
-        cross("yukawa", "shipped", [1e-2, 10.0], L, "config")
+        cross("yukawa", "shipped", [1e-2, 10.0], ("lte",), "config")
+        cross("yukawa", "shipped", [1e-1, 100.0], L, "config")
+        cross("quarticlog", "shipped", [1e-2, 100.0], ("lte",), "config")
         cross("yukawa", "knobs", [1e-2, 10.0], L, "config")
         cross("quarticlog", "knobs", [1e-2, 100.0], H, "config")
-        coll = os.path.join(vlib.REPO, "Models", "Yukawa", "CollisionOutput_N11",
-                            "collisions_psiL_psiL.hdf5")
-        if os.path.exists(coll) and os.path.getsize(coll) > 4096:
-            cross("yukawa", "default", [1e-2, 100.0], ("wall", "offeq"), "off-equilibrium")
-        else:
-            ctx.log("off-equilibrium runs skipped: the shipped collision files are git-lfs "
-                    "pointers in this checkout (%d bytes)" % (
-                        os.path.getsize(coll) if os.path.exists(coll) else 0))
-            ctx.count("offeq_skipped_no_collision_data")
+        cross("quarticwide", "default", [1e-2, 100.0], ("wall", "offeq"), "off-equil.")
+        cross("yukawa", "default", [1e-2], ("wall", "offeq"), "off-equil.")
         cross("quarticwide", "default", [1e-2], D, "detonation")
         cross("xsm", "default", [1e-2], D, "detonation")
         for m, fs in (("yukawa", W), ("quarticlog", L)):
@@ -1228,21 +1334,28 @@ def run(ctx):
         3 if j[0].startswith("quartic") else 1)
     jobs.sort(key=cost, reverse=True)
     t0 = time.time()
-    with multiprocessing.Pool(min(len(jobs), 16)) as pool:
-        results = pool.map(solve_case, jobs, chunksize=1)
+    limit = ctx.n(240, 600)
+    byj = run_jobs(ctx, jobs, limit)
+    results = [byj[j] for j in jobs]
     ctx.log("metamorphic runs: %d jobs in %.0fs" % (len(jobs), time.time() - t0))
-    byj = dict(zip(jobs, results))
+    for r in results:
+        if "inconclusive" in r:
+            ctx.count("inconclusive_jobs")
+            ctx.log("INCONCLUSIVE (environment, not a violation): %s %s: %s" % (
+                r["model"], describe(r), r["inconclusive"]))
 
-    def counterfactual(run):
+    def counterfactual(run, variant="scaledstep"):
         key = J(run["model"], run["unit"], run["tols"], tuple(run["stages"]))
-        cj = cf_jobs.get(key) or J(run["model"], run["unit"], run["tols"],
-                                   tuple(x for x in run["stages"] if x == "lte"),
-                                   variant="scaledstep")
+        cj = (cf_jobs.get(key) if variant == "scaledstep" else None) or J(
+            run["model"], run["unit"], run["tols"],
+            tuple(x for x in run["stages"] if x == "lte"), variant=variant)
         if cj not in byj:
-            byj[cj] = solve_case(cj)
+            byj.update(run_jobs(ctx, [cj], limit))      # in its own process
         return byj[cj]
     # purity and call-history checks on every run (no extra managers are built)
     for r in results:
+        if "inconclusive" in r:
+            continue
         tag = "%s [%s] %s" % (r["model"], r["tols"], describe(r))
         rep = replay_dict(r, r)
         ctx.count("purity_checked_runs")
@@ -1280,6 +1393,11 @@ def run(ctx):
                                key="history:second-call:success")
     for a, b, fam in pairs:
         ref, r = byj[a], byj[b]
+        if "inconclusive" in ref or "inconclusive" in r:
+            ctx.count("inconclusive_pairs")
+            ctx.log("%-10s %-11s %-7s %-44s not compared (a job was inconclusive)" % (
+                fam, b[0], b[2], describe(r)))
+            continue
         ctx.count("metamorphic_" + fam, dict(ref=a, run=b), bucket="%s x%g" % (b[0], b[1]))
         bad = compare_runs(ctx, ref, r, TOLSETS[b[2]], b[2], counterfactual)
         ctx.log("%-10s %-11s %-7s %-44s %s  vw=%s width*Tn=%s (%.0fs)" % (
